@@ -252,9 +252,28 @@ void CaptureModulePayload::setData(const std::string_view deviceDescription,
     payloadData.resize(newSize);
 }
 
-bool CaptureModulePayload::isValidPayload([[maybe_unused]] const uint8_t* data, const size_t size)
+bool CaptureModulePayload::isValidPayload(const uint8_t* data, const size_t size)
 {
-    return (size >= sizeof(Header));
+    if (size < minPayloadSize)
+        return false;
+
+    // Device description, serial number, hardware version, software version and vendor data:
+    // each length-prefixed field has to fit into the payload
+    constexpr int fieldsCount = 5;
+    size_t offset = sizeof(Header);
+    for (int i = 0; i < fieldsCount; ++i)
+    {
+        if (size - offset < sizeof(uint16_t))
+            return false;
+
+        const size_t length = swapEndian(*reinterpret_cast<const uint16_t*>(data + offset));
+        offset += sizeof(uint16_t);
+        if (length > size - offset)
+            return false;
+
+        offset += length;
+    }
+    return true;
 }
 
 const CaptureModulePayload::Header* CaptureModulePayload::getHeader() const
